@@ -29,7 +29,7 @@ def run(ctx):
     # 2. implementation -> model
     binp = ctx.build("publish")
     demo_ok = pc.binding_demo(ctx, binp)
-    batches = [("main", ctx.seed, 7, 10, 34, 14)] if q else [("main", ctx.seed, 20, 14, 40, 40), ("long", ctx.seed + 500, 6, 8, 90, 12)]
+    batches = [("main", ctx.seed, 7, 10, 34, 14)] if q else [("main", ctx.seed, 30, 14, 40, 40), ("long", ctx.seed + 500, 8, 8, 90, 12)]
     tot = dict(runs=0, obs=0, fin=0, reads=0, api=0, raced=0, stale=0, distinct=0, pairs=0, best_changes=0, reorgs=0, diverged=0,
                quiesce=0, sims=0, queries=0)
     phases = {}
